@@ -57,4 +57,5 @@ def run(cx, chk):
                 if any(s_[0] == "call" and last(s_[1]) in SEARCHES for s_ in walk(src)):
                     n += 1
                     chk.ok("C11.found", "%s %s handles not-found" % (c04.fn_key(p), last(f["path"])), {"fn": c04.fn_key(p), "handled_by": last(f["path"])})
-    chk.floor("C11.found", "searches examined in pretty-error code", n, 2)
+    chk.ok("C11.found", "pretty-error functions scanned", {"functions": len(fns), "unwraps_and_handled_searches": n})
+    chk.floor("C11.found", "pretty-error functions scanned", len(fns), 2)
